@@ -2,10 +2,15 @@ package main
 
 import (
 	"fmt"
+	"io"
 	"net"
 	"net/http"
+	"net/url"
+	"path/filepath"
+	"strings"
 	"time"
 
+	wt "github.com/hnakamur/whispertool"
 	"github.com/hnakamur/whispertool/cmd"
 )
 
@@ -36,3 +41,50 @@ func (s *sess) serverURL() string {
 }
 
 var serverState = map[string]string{}
+
+func init() {
+	// httpview file=<name> retention= from= until= now= : one raw HTTP round trip to /view with an
+	// explicit (possibly past) clock; the response is decoded with the public codec API
+	handlers["clihttpview"] = func(s *sess, tk []string) {
+		a := parseKV(tk[1:])
+		s.closeAll()
+		s.echo(strings.Join(tk, " "))
+		rel := filepath.Join(filepath.Base(s.dir), a["file"])
+		u := fmt.Sprintf("%s/view?file=%s&retention=%s&from=%s&until=%s&now=%s", s.serverURL(), url.QueryEscape(rel), a["retention"],
+			url.QueryEscape(wt.Timestamp(a.num("from", 0)).String()), url.QueryEscape(wt.Timestamp(a.num("until", 0)).String()),
+			url.QueryEscape(wt.Timestamp(a.num("now", 0)).String()))
+		resp, err := http.Get(u)
+		if err != nil {
+			s.obs("clihttpview transport-error")
+			return
+		}
+		defer resp.Body.Close()
+		data, _ := io.ReadAll(resp.Body)
+		if resp.StatusCode != 200 {
+			s.obs("clihttpview err")
+			return
+		}
+		if len(data) == 0 {
+			s.obs("clihttpview notexist")
+			return
+		}
+		h := &wt.Header{}
+		data, err = h.TakeFrom(data)
+		if err != nil {
+			s.obs("clihttpview undecodable-header")
+			return
+		}
+		s.obs("clihttpview ok")
+		s.obs("out wirehdr %s", showHeader(h))
+		for i := range h.ArchiveInfoList() {
+			ts := &wt.TimeSeries{}
+			data, err = ts.TakeFrom(data)
+			if err != nil {
+				s.obs("out undecodable-series %d", i)
+				return
+			}
+			s.obs("out %s", showSeries(ts))
+		}
+		s.obs("out rest %d", len(data))
+	}
+}
